@@ -183,7 +183,7 @@ def c02_two_params(p: str, q: str) -> bool:
 
 
 def _nested(p, q, depth, shape):
-    inner = (T(p), T(p, const=True, suf="&"), T("Value", ns=(p,)), T(p, suf="*"))[shape]
+    inner = (T(p), T(p, const=True, suf="&"), T("Value", ns=(p,)), T(p, suf="*"), T("Rebind", T(p), T("This"), ns=(p,)))[shape]
     ty = inner
     d = 0
     while d < depth:
@@ -197,7 +197,7 @@ def _nested(p, q, depth, shape):
 def c02_nested_d1(p: str, q: str, shape: int) -> bool:
     """
     Occurrence inside template arguments at depth 1 (`std::vec<std::lst<q>, ...p...>`: a templated sibling comes first), bare / qualified / scoped.
-    pre: _pre(p, q, LP, LQ) and 0 <= shape < 4
+    pre: _pre(p, q, LP, LQ) and 0 <= shape < 5
     pre: not (kf_open('C02-substring') and p in q)
     post: _
     """
@@ -207,7 +207,7 @@ def c02_nested_d1(p: str, q: str, shape: int) -> bool:
 def c02_nested_d2(p: str, q: str, shape: int) -> bool:
     """
     Depth 2 (`std::opt<std::vec<std::lst<q>, ...p...>>`).
-    pre: _pre(p, q, LP3, LQ3) and 0 <= shape < 4
+    pre: _pre(p, q, LP3, LQ3) and 0 <= shape < 5
     pre: not (kf_open('C02-substring') and p in q)
     post: _
     """
